@@ -3,7 +3,7 @@ CONSTANT DeadlineOnProcessClock = TRUE
 CONSTANT AgeLimit = 2
 CONSTANT MaxAge = 3
 CONSTANT ModelReused = FALSE
-CONSTANT TreeKinds = 14
+CONSTANT TreeKinds = 16
 CONSTANT MaxLen = 2
 SPECIFICATION Spec
 INVARIANT TypeOK
